@@ -221,15 +221,23 @@ def verify(env, c, thorough=False):
         fr_locals = {}
         pre = Frame(fi, fi.module, fr_locals, cls=fi.cls)
         I._top_frame = pre
-        for name, srt in c.params.items():
-            if isinstance(srt, sorts.Expr):
-                fr_locals[name] = I.eval_src(srt.src, pre)
-            else:
-                fr_locals[name] = sorts.build(I, srt, name)
-        if c.setup is not None:
-            c.setup(I, fr_locals)
-        for src in c.requires:
-            p.assume(I.formula_src(src, pre))
+        try:
+            for name, srt in c.params.items():
+                if isinstance(srt, sorts.Expr):
+                    fr_locals[name] = I.eval_src(srt.src, pre)
+                else:
+                    fr_locals[name] = sorts.build(I, srt, name)
+            if c.setup is not None:
+                c.setup(I, fr_locals)
+            for src in c.requires:
+                p.assume(I.formula_src(src, pre))
+        except Unsupported as e:
+            res.unsupported.append(f'path {p.path_id} (building inputs): {e}')
+            return
+        except PyExc as e:
+            if p.solver.check() != z3.unsat:
+                res.unsupported.append(f'path {p.path_id}: building the declared inputs raised {e}')
+            return
         if c.requires and p.solver.check() == z3.unsat:
             raise PathEnd()      # this combination of input shapes is excluded by the precondition
         old = Frame(fi, fi.module, {k: snapshot(v) for k, v in fr_locals.items()})
@@ -241,6 +249,8 @@ def verify(env, c, thorough=False):
         for name, v in fr_locals.items():
             if name in names or name in [a.arg for a in fi.node.args.kwonlyargs]:
                 kwargs[name] = v
+        if fi.kind == 'classmethod' and names and names[0] not in kwargs:
+            kwargs[names[0]] = ClassVal(fi.cls)
         raised = None
         result = None
         try:
